@@ -79,3 +79,49 @@ func readTlvStream(
 		}
 	}
 }
+
+// readTlvDatagrams is the receive loop of a datagram socket. A datagram is
+// framed on its own: the complete TLV blocks it starts with are handed to the
+// link service; whatever else it holds (a block cut short, a length beyond
+// the maximum packet size, an unfinished header) is dropped with it. Nothing
+// is carried over to the next datagram and a malformed datagram does not end
+// the loop - any host can send one.
+func readTlvDatagrams(
+	reader io.Reader,
+	onFrame func([]byte),
+	ignoreError func(error) bool,
+) error {
+	recvBuf := make([]byte, defn.MaxNDNPacketSize)
+
+	for {
+		readSize, readErr := reader.Read(recvBuf)
+		datagram := recvBuf[:readSize]
+
+		for len(datagram) > 0 {
+			rdr := enc.NewBufferReader(datagram)
+
+			if _, err := enc.ReadTLNum(rdr); err != nil {
+				break
+			}
+
+			len64, err := enc.ReadTLNum(rdr)
+			if err != nil || uint64(len64) > uint64(len(datagram)-rdr.Pos()) {
+				break
+			}
+
+			tlvSize := rdr.Pos() + int(len64)
+			onFrame(datagram[:tlvSize])
+			datagram = datagram[tlvSize:]
+		}
+
+		if readErr != nil {
+			if ignoreError != nil && ignoreError(readErr) {
+				continue
+			}
+			if errors.Is(readErr, io.EOF) {
+				return nil
+			}
+			return readErr
+		}
+	}
+}
